@@ -32,6 +32,7 @@ type schedCase struct {
 	Sched   [][]json.RawMessage `json:"sched"`
 	Results [][]json.RawMessage `json:"results"`
 	Reqs    []int               `json:"reqs"`
+	Failed  []int               `json:"failed"`
 }
 
 type outcome struct {
@@ -82,12 +83,13 @@ func init() {
 		peer := rtmp.NewProtocol(b) // only used to serialise the peer's responses onto A's input
 
 		arrive := make(chan int, 16)
-		release := make(chan struct{}, 16)
+		release := make(chan error, 16)
 		a.Out.WriteGate = func(call int, p []byte) error {
 			arrive <- call
-			<-release
-			return nil
+			return <-release // nil, or the transport's error for a write the schedule makes fail
 		}
+		injected := &transport.ErrInjected{What: "transport write of a request"}
+		failing := false
 		wcmd := make(chan int, 16)
 		wret := make(chan error, 16)
 		go func() {
@@ -108,7 +110,7 @@ func init() {
 			// unblock anything still parked so the goroutines can end
 			for k := 0; k < 8; k++ {
 				select {
-				case release <- struct{}{}:
+				case release <- nil:
 				default:
 				}
 			}
@@ -126,7 +128,8 @@ func init() {
 				wcmd <- t
 			case "register":
 				// not observable: the code cannot be paused between marshal, register and the transport write
-			case "twrite":
+			case "twrite", "twritefail":
+				failing = label == "twritefail"
 				select {
 				case <-arrive:
 				case err := <-wret:
@@ -135,10 +138,19 @@ func init() {
 					return rp.Fail(i, "stall: step %d: WritePacket(tid %d) never reached the transport", k, t)
 				}
 			case "return":
-				release <- struct{}{}
+				if failing {
+					release <- injected
+				} else {
+					release <- nil
+				}
 				select {
 				case err := <-wret:
-					if err != nil {
+					if failing {
+						if err == nil {
+							return rp.Fail(i, "step %d: WritePacket(tid %d) returned nil although the transport refused the request", k, t)
+						}
+						failing = false
+					} else if err != nil {
 						return rp.Fail(i, "step %d: WritePacket(tid %d) failed: %v", k, t, err)
 					}
 				case <-time.After(stepTimeout):
@@ -173,9 +185,17 @@ func init() {
 				rp.Bug("unknown schedule label %q", label)
 			}
 		}
-		// NoLoss: everything was answered, so nothing may still be remembered
-		if tids, _ := pa.VerifPending(); len(tids) != 0 {
-			return rp.Fail(i, "after the schedule %v requests are still outstanding, specification says none", tids)
+		// NoLoss: everything that reached the transport was answered, so nothing may still be remembered
+		// (except the id of a request whose write failed)
+		tids, _ := pa.VerifPending()
+		for _, t := range tids {
+			stale := false
+			for _, f := range cs.Failed {
+				stale = stale || float64(f) == t
+			}
+			if !stale {
+				return rp.Fail(i, "after the schedule request %v is still outstanding, specification says none", t)
+			}
 		}
 		return rp.Result{OK: true}
 	}
